@@ -302,6 +302,13 @@ theorem tree_index_ceilings :
     SdnsVerif.Gen.C04.hist_proof_max_big_ns ≤ 86400000000000 := by
   decide
 
+/-- **The ECS cap survives the configuration fallback**: a cache built from a
+configuration `Validate` rejects (cachesize 0) with `cache_limit_ttl` 7 s still
+works with a cap, and not a larger one (0 would mean "no cap"). -/
+theorem tree_ecs_cap_under_fallback :
+    0 < SdnsVerif.Gen.C04.ecs_cap_under_fallback_ns ∧ SdnsVerif.Gen.C04.ecs_cap_under_fallback_ns ≤ 7000000000 := by
+  decide
+
 /-- `admission_upper_bound` for the constants of the current tree. -/
 theorem admission_upper_bound_tree (ecsMax : Int) (msg : Msg) (rt : RespType) (now : Int) (sc : Bool)
     (hrt : rt ≠ .servfail) :
